@@ -331,6 +331,16 @@ func varOps() []op {
 		{"send9 {max $cap-[4] a, max $cap b, world}->x", 0, func() gen.Stmt {
 			return sendN(U, "9", lst(&gen.SrcCapped{Cap: &gen.Infix{Op: "-", L: v("cap"), R: gen.Mon(U, "4")}, From: sa("a")}, &gen.SrcCapped{Cap: v("cap"), From: sa("b")}, sa("world")), da("x"))
 		}},
+		// arithmetic on shared NUMBER variables, which are then written out again
+		{"tx s=$n+$nm", 0, func() gen.Stmt {
+			return &gen.Call{Name: "set_tx_meta", Args: []gen.Expr{gen.Str("s"), &gen.Infix{Op: "+", L: v("n"), R: v("nm")}}}
+		}},
+		{"tx d=$nm-$n", 0, func() gen.Stmt {
+			return &gen.Call{Name: "set_tx_meta", Args: []gen.Expr{gen.Str("d"), &gen.Infix{Op: "-", L: v("nm"), R: v("n")}}}
+		}},
+		{"am a.n=$n", 0, func() gen.Stmt {
+			return &gen.Call{Name: "set_account_meta", Args: []gen.Expr{gen.Acct("a"), gen.Str("n"), v("n")}}
+		}},
 		{"send9 world->{max $amt-$cap+$cod x, y}", 0, func() gen.Stmt {
 			return sendN(U, "9", sa("world"), ord(&gen.Infix{Op: "+", L: &gen.Infix{Op: "-", L: v("amt"), R: v("cap")}, R: v("cod")}))
 		}},
@@ -342,6 +352,8 @@ var varOpValues = map[string][]string{
 	"cap": {"USD 5", "USD 50", "USD 18446744073709551617", "USD 010"},
 	"cod": {"USD 2", "USD 10", "USD 18446744073709551616"},
 	"p":   {"25%", "1/3", "100%"},
+	"n":   {"5", "-2", "123456789012345678901234567890"},
+	"nm":  {"-3", "18446744073709551616"},
 }
 
 // runVarSeqSpace: all sequences of minLen..maxLen statements of varOps x all values of the
